@@ -60,6 +60,13 @@ def wf(D, B):
                BNode.bleft(D) != B, BNode.bright(D) != B))
 
 
+def wfc(D, B):
+    """canonical node: well formed, and a kv node never sits directly over another kv node (their paths would have
+    been merged).  nd(child) is a function of the child *hash* (ideal-hash reading), so this is a local property of
+    the node; a store in which every node has it holds only canonical tries."""
+    return z3.And(wf(D, B), z3.Implies(BNode.is_BKV(D), z3.Not(BNode.is_BKV(nd(BNode.bchild(D))))))
+
+
 def tail(k, n):
     return z3.simplify(z3.Extract(k, n, z3.Length(k) - n))
 
@@ -238,14 +245,19 @@ def unfold_bavail(E, H, h, k):
 
 
 class BinDbInvariant:
-    """invariant of a binary-trie store: every entry is content-addressed and encodes a well-formed node.
-    Reading an entry yields these facts for that entry; every write must re-establish them (obligations)."""
+    """invariant of a binary-trie store: every entry is content-addressed and encodes a well-formed node -- and, for
+    the store of a BinaryTrie (canonical=True), a canonical one (C12: the trie under every root is the canonical trie
+    of its contents).  Reading an entry yields these facts for that entry; every write must re-establish them
+    (obligations)."""
+
+    def __init__(self, canonical=True):
+        self.canonical = canonical
 
     def on_read(self, E, d, kt, vt):
         E.ghost.setdefault("opened", []).append(z3.simplify(kt))
         E.assume(mk_bool(vt == unk(kt)))
         E.assume(mk_bool(specfn.keccak(unk(kt)) == kt))
-        E.assume(mk_bool(wf(nd(kt), blank_hash(E))))
+        E.assume(mk_bool((wfc if self.canonical else wf)(nd(kt), blank_hash(E))))
         return unk(kt)          # the value read *is* the denoted body: use that term (it equals vt by the first fact)
 
     def on_write(self, E, d, kt, vt):
@@ -254,6 +266,10 @@ class BinDbInvariant:
         E.prove("store-write/content-addressed", mk_bool(kt == specfn.keccak(vt)), kind="frame",
                 detail="db[k] = v is executed with k = keccak(v)")
         E.prove("store-write/well-formed-node", mk_bool(wf(dec(vt), blank_hash(E))), kind="frame")
+        if self.canonical:
+            Dw = dec(vt)
+            E.prove("store-write/canonical-node", mk_bool(z3.Implies(BNode.is_BKV(Dw), z3.Not(BNode.is_BKV(nd(BNode.bchild(Dw)))))),
+                    kind="frame", detail="a kv node is never written directly over another kv node")
         E.prove("store-write/existing-entry-unchanged", mk_bool(z3.Implies(z3.Select(d.has, kt), z3.Select(d.val, kt) == vt)),
                 kind="frame", detail="a write to an existing key stores the value that is already there")
 
